@@ -3,16 +3,40 @@
 Exit 0 iff every stable test still passes."""
 import json, os, subprocess, sys, tempfile, xml.etree.ElementTree as ET
 
+class _Done:
+    def __init__(self, out):
+        self.stdout = out
+
+
+def run_pytest(cmd, env, junit):
+    """pytest sometimes hangs at interpreter exit (a non-daemon agent thread left by a test) after having written its
+    report: once the junit file has been there for 40 s the process is killed"""
+    import time
+    out = tempfile.TemporaryFile(mode='w+')
+    pr = subprocess.Popen(cmd, cwd='/repo', env=env, stdout=out, stderr=subprocess.STDOUT, text=True)
+    seen = None
+    while pr.poll() is None:
+        time.sleep(2)
+        if os.path.exists(junit) and os.path.getsize(junit) > 0:
+            seen = seen or time.time()
+            if time.time() - seen > 40:
+                pr.kill()
+                pr.wait()
+                break
+    out.seek(0)
+    return _Done(out.read() or 'no output')
+
+
 def main():
     base = json.load(open('/root/.vp/BASELINE.json'))
     stable = set(base['stable_pass'])
-    fd, path = tempfile.mkstemp(suffix='.junit.xml'); os.close(fd)
+    fd, path = tempfile.mkstemp(suffix='.junit.xml'); os.close(fd); os.unlink(path)
     env = dict(os.environ)
     for k in ('PYDCOP_VERIF',):
         env.pop(k, None)
     cmd = ['/venv/bin/python', '-m', 'pytest', '-ra', '-q', '-p', 'no:cacheprovider', '--timeout=900',
            '--continue-on-collection-errors', '--junitxml=' + path]
-    p = subprocess.run(cmd, cwd='/repo', env=env, stdout=subprocess.PIPE, stderr=subprocess.STDOUT, text=True)
+    p = run_pytest(cmd, env, path)
     passed = set()
     root = ET.parse(path).getroot()
     for tc in root.iter('testcase'):
@@ -32,9 +56,9 @@ def main():
         if not files:
             break
         fd, path2 = tempfile.mkstemp(suffix='.junit.xml'); os.close(fd)
-        subprocess.run(['/venv/bin/python', '-m', 'pytest', '-q', '-p', 'no:cacheprovider', '--timeout=900',
-                        '--junitxml=' + path2] + files, cwd='/repo', env=env, stdout=subprocess.PIPE,
-                       stderr=subprocess.STDOUT, text=True)
+        os.unlink(path2)
+        run_pytest(['/venv/bin/python', '-m', 'pytest', '-q', '-p', 'no:cacheprovider', '--timeout=900',
+                    '--junitxml=' + path2] + files, env, path2)
         for tc in ET.parse(path2).getroot().iter('testcase'):
             if not any(ch.tag in ('failure', 'error', 'skipped') for ch in tc):
                 passed.add('%s::%s' % (tc.get('classname'), tc.get('name')))
